@@ -29,6 +29,7 @@
 #include <vector>
 #include <unistd.h>
 #include <fcntl.h>
+#include <fnmatch.h>
 
 #include "geoslib_io.h"
 
@@ -404,14 +405,11 @@ struct Sub
 };
 inline std::vector<Sub>& subs() { static std::vector<Sub> v; return v; }
 
-// a failure key matches a known-finding key exactly, or by prefix when the pattern ends with '*'
+// a failure key matches a known-finding key as a shell-style pattern ('*' matches any run of characters)
 inline bool isExcluded(const std::string& key)
 {
   for (auto& p : stats().exclude)
-  {
-    if (!p.empty() && p.back() == '*') { if (key.compare(0, p.size() - 1, p, 0, p.size() - 1) == 0) return true; }
-    else if (key == p) return true;
-  }
+    if (fnmatch(p.c_str(), key.c_str(), 0) == 0) return true;
   return false;
 }
 
